@@ -4,7 +4,9 @@ import re
 
 from ..coqbuild import check_property_proofs
 from ..common import REPO, Rng
-from .. import tb, gencore, gendump, grammar
+from .. import tb, gencore, gendump, grammar, build
+from ..core import MODEL_FLAGS
+import subprocess
 
 ILL = [
     'a = { a }',
@@ -98,6 +100,53 @@ def pipeline_order(ctx):
     return ok
 
 
+def termination_tie(ctx, dgs, run):
+    """the theorem's class on the corpus: infer a certificate in the model, check it with the verified checker
+    wf_cert, and re-run the model on the corpus inputs with exactly the fuel the theorem promises to be enough:
+    no FUEL may come back (C11_entry_points evaluated), and the implementation returned on each of them (watchdog)"""
+    okm, exe = build.build_extraction("Sem")
+    if not okm:
+        ctx.violation("model driver does not build", {"log": exe[-1500:]}, found_input=False)
+        return
+    from .. import dcorp
+    nwf = nnot = ncases = 0
+    for g in dgs:
+        ins = dcorp.inputs_for(g)
+        maxlen = max([len(b) for b in ins] + [0])
+        p = subprocess.run([exe], input=g.env.env_sexp(MODEL_FLAGS) + "\n(wf %d)\n" % maxlen, capture_output=True, text=True)
+        line = [l for l in p.stdout.split("\n") if l.startswith("WF|")]
+        if p.returncode != 0 or not line:
+            ctx.violation("wf checker crashed on a corpus grammar", {"grammar": g.text, "stderr": p.stderr[-500:]}, found_input=False)
+            continue
+        _, verdict, bound = line[0].split("|")
+        if verdict != "1":
+            nnot += 1
+            ctx.count("wf_cert=reject")
+            continue
+        nwf += 1
+        ctx.count("wf_cert=accept")
+        ctx.nontrivial.add("wf:" + g.text)
+        # model at the theorem's fuel: sample of the inputs (the whole set already ran with the heuristic fuel)
+        sample = ins[:: max(1, len(ins) // 40)]
+        job = [g.env.env_sexp(MODEL_FLAGS), "(clear)"] + g.env.shape_sexps() + ["(fuel %s)" % bound]
+        job += ["(in str %s 0 0)" % (b.hex() if b else "-") for b in sample]
+        p = subprocess.run([exe], input="\n".join(job) + "\n", capture_output=True, text=True)
+        for ln in p.stdout.split("\n"):
+            if not ln:
+                continue
+            ncases += 1
+            if "FUEL" in ln:
+                ctx.violation("model returns FUEL at the theorem's fuel bound (C11_entry_points does not describe the extracted model)",
+                              {"grammar": g.text, "line": ln[:300], "bound": bound}, found_input=False)
+                break
+    ctx.evaluations += ncases
+    ctx.coverage["wf_cert_accepted_grammars"] = nwf
+    ctx.coverage["wf_cert_rejected_grammars"] = nnot
+    ctx.coverage["model_runs_at_theorem_fuel"] = ncases
+    ctx.oblige("termination tie: %d corpus grammars accepted by the verified checker wf_cert with the inferred certificate; "
+               "%d model runs at exactly fuel_bound returned (no FUEL)" % (nwf, ncases), nwf > 0 and ncases > 0)
+
+
 def check(ctx):
     ok = check_property_proofs(ctx, "C11")
     if not ok:
@@ -149,8 +198,11 @@ def check(ctx):
         ctx.evaluations += len(dgs)
         for p in run.problems:
             ctx.violation("a parse batch did not return or died (watchdog / exit status): " + p, {"problem": p}, found_input=False)
+        termination_tie(ctx, dgs, run)
     except RuntimeError as e:
         msg = str(e)
+        if "cargo build" not in msg:
+            raise
         names = sorted(set(re.findall(r"src/(g\d+)\.rs", msg)))
         texts_by = {}
         try:
